@@ -67,6 +67,8 @@ Inductive case :=
 (* access flags: the u16 in the file and the u16 rebuilt from duke's flag struct *)
 | CAccess (kind : N) (v : N) (back : N)
 (* an attribute list (names, payloads) of a context in file order, and what duke reported as unknown attributes *)
+(* a class file with this magic, minor and major version: did duke get past the header *)
+| CHeader (mg minor major : N) (accepted : bool)
 | CUnknown (ctx : N) (attrs : list (str * bytes)) (reported : list (str * bytes)).
 
 Definition check (c : case) : bool :=
@@ -75,6 +77,7 @@ Definition check (c : case) : bool :=
   | CClass p bsm ms r => res_eqb (list_eqb xsem_eqb) (map_res (read_method p bsm) ms) r
   | CPool p bsm qs => forallb (fun q => match q with (kind, idx, r) => res_eqb cval_eqb (resolve_kind p bsm kind idx) r end) qs
   | CAccess kind v back => N.eqb (access_back kind v) back
+  | CHeader mg minor major accepted => Bool.eqb (header_ok mg minor major) accepted
   | CUnknown ctx attrs reported =>
       list_eqb (pair_eqb str_eqb bytes_eqb) (unknown_of (known_ctx ctx) attrs) reported
   end.
